@@ -175,5 +175,3 @@ func witnessPathFrom(c *Ctx, roots []*ssa.Function, fn *ssa.Function) []string {
 }
 
 // placeholders filled in by the other C10 rule files
-func (c *Ctx) carryRule(e *Eff) map[string]any   { return nil }
-func (c *Ctx) flowsContainerRule(e *Eff)         {}
